@@ -21,6 +21,7 @@ type RecStore struct {
 	Gate          func(n int, name string) error
 	End           func(n int, name string, err error)
 	nLoad, nStore int
+	TotalLoads    int // every Load call ever made (never reset)
 }
 
 type StoreCall struct {
@@ -75,6 +76,7 @@ func (s *RecStore) Load(ctx context.Context, name string) ([]byte, error) {
 	defer s.mu.Unlock()
 	n := s.nLoad
 	s.nLoad++
+	s.TotalLoads++
 	s.Loads = append(s.Loads, name)
 	if s.FailLoad != nil {
 		if err := s.FailLoad(n, name); err != nil {
